@@ -163,7 +163,9 @@ def build():
                           ' forall |j: int| 0 <= j < kk ==> (#[trigger] symbols@[j])@ == sym_upto(%s, %s, %s, kk, data@, j, sub_block as nat),' % (T, AL, N, T, AL, N)),
                  'before': 'proof { assert(kk * 0 == 0) by (nonlinear_arith); }',
                  'body_top': 'proof { lemma_layout(%s, %s, %s, sub_block as int); }' % (T, AL, N)},
-             1: {'before': ('proof { let so = sym_off(%s, %s, %s, sub_block as int); let by = sub_bytes(%s, %s, %s, sub_block as int); assert(bytes as int == by);'
+             1: {'before': ('proof { let so = sym_off(%s, %s, %s, sub_block as int); let by = sub_bytes(%s, %s, %s, sub_block as int);'
+                            ' assert(tl as int * (config.symbol_alignment as int) == (config.symbol_alignment as int) * tl as int && ts as int * (config.symbol_alignment as int) == (config.symbol_alignment as int) * ts as int) by (nonlinear_arith);'
+                            ' assert(bytes as int == by);'
                             ' assert(by * 0 == 0) by (nonlinear_arith); }') % (T, AL, N, T, AL, N),
                  'spec': ('invariant ' + CONSTS + ' (sub_block as int) < %s, bytes as int == sub_bytes(%s, %s, %s, sub_block as int),'
                           ' offset as int == dst_start(%s, %s, %s, kk, verif_i as int, sub_block as int), verif_i as int <= kk,'
